@@ -27,6 +27,7 @@ type c07Params struct {
 	Probe    bool // every handler calls the client's query API (Me, Connected, StateTracker, String) while it runs
 	Tracking bool // state tracking on; the backlog consists of JOINs of other users
 	Dead     bool // with Stall: the server never reads again (a dead peer), the blocked write only ends when the client closes its socket
+	BGBusy   bool // a background handler of the first line is still running (blocked until the end of the scenario) when the connection ends
 	OnConn   bool // the busy handler (gated / sending) is the CONNECTED handler, started by a welcome line, not the PRIVMSG handler
 	LongQuit bool // a user task writes a 5000-byte line and QUIT just before the cause (the socket buffer is mid-line at teardown)
 }
@@ -48,12 +49,15 @@ func (p c07Params) name() string {
 	if p.Dead {
 		n += "/dead-peer"
 	}
+	if p.BGBusy {
+		n += "/bg-busy"
+	}
 	return n
 }
 
 func (p c07Params) params() map[string]interface{} {
 	return map[string]interface{}{"inbound_backlog": p.Backlog, "segs": p.Segs, "mode": p.Mode, "emit": p.Emit, "stall": p.Stall,
-		"cause": p.Cause, "floodctl": p.FloodCtl, "user_send": p.UserSend, "chancap": p.ChanCap, "probe": p.Probe, "tracking": p.Tracking, "on_connected": p.OnConn, "longquit": p.LongQuit, "dead_peer": p.Dead}
+		"cause": p.Cause, "floodctl": p.FloodCtl, "user_send": p.UserSend, "chancap": p.ChanCap, "probe": p.Probe, "tracking": p.Tracking, "on_connected": p.OnConn, "longquit": p.LongQuit, "dead_peer": p.Dead, "bg_busy": p.BGBusy}
 }
 
 func c07Scenario(p c07Params) *explore.Scenario {
@@ -109,6 +113,26 @@ func c07Scenario(p c07Params) *explore.Scenario {
 		c.HandleFunc(client.DISCONNECTED, func(conn *client.Conn, line *client.Line) {
 			vx.Observe("ev", "DISCONNECTED")
 		})
+		bgRelease := vx.NewEvent("bg-release")
+		if p.BGBusy || p.Cause == "close-from-bg" {
+			c.HandleBG("PRIVMSG", client.HandlerFunc(func(conn *client.Conn, line *client.Line) {
+				if line.Text() != "m0" {
+					return
+				}
+				if p.Cause == "close-from-bg" {
+					// Close from a background handler is inside the claim (only foreground / internal handlers are
+					// excluded: the event loop runs those)
+					first.Wait()
+					vx.Observe("ev", "cause-begin close-from-bg")
+					conn.Close()
+					vx.Observe("ev", "close-ret")
+					return
+				}
+				vx.Observe("ev", "bg-busy-enter")
+				bgRelease.Wait() // a background handler may take as long as it likes; a disconnect does not wait for it
+				vx.Observe("ev", "bg-busy-exit")
+			}))
+		}
 		var vc *vx.Conn
 		env.ConnSetup = func(x *vx.Conn) { vc = x }
 		ctx, cancel := context.WithCancel(context.Background())
@@ -155,8 +179,12 @@ func c07Scenario(p c07Params) *explore.Scenario {
 			c.Raw(c07LongLine)
 			c.Quit("bye")
 		}
-		vx.Observe("ev", "cause-begin "+p.Cause)
+		if p.Cause != "close-from-bg" {
+			vx.Observe("ev", "cause-begin "+p.Cause)
+		}
 		switch p.Cause {
+		case "close-from-bg":
+			// the background handler above does it
 		case "close":
 			c.Close()
 			vx.Observe("ev", "close-ret")
@@ -183,10 +211,23 @@ func c07Scenario(p c07Params) *explore.Scenario {
 			vx.Quiesce()
 		}
 		vx.Observe("ev", fmt.Sprintf("end connected=%v", c.Connected()))
+		if p.BGBusy {
+			bgRelease.Set()
+			vx.Quiesce()
+		}
 	}
 	sc.Check = func(o *vx.Outcome) []explore.Finding {
 		var fs []explore.Finding
 		ev := o.Log("ev")
+		if p.BGBusy {
+			// everything up to "end" happens while the background handler is still busy
+			for i, r := range ev {
+				if r == "bg-busy-exit" {
+					ev = append(append([]string{}, ev[:i]...), ev[i+1:]...)
+					break
+				}
+			}
+		}
 		switch o.Kind {
 		case "crash":
 			return []explore.Finding{{Oracle: "crash", Msg: o.Crash.Task + ": " + o.Crash.Value + " @ " + o.Crash.Top}}
@@ -509,6 +550,15 @@ func c07Jobs(tier string) []Job {
 			add(c07Params{Backlog: bl, Segs: "one", Mode: "gated", Cause: cs, Probe: true, Tracking: true}, b1, 30+bl)
 		}
 		add(c07Params{Backlog: 3, Segs: "one", Mode: "gated", Cause: cs, Probe: true, Tracking: true, ChanCap: 2}, b2, 20)
+	}
+	// background handlers: Close called from one, and one that is still busy when the connection ends
+	for _, mode := range []string{"idle", "gated"} {
+		add(c07Params{Backlog: 2, Segs: "one", Mode: mode, Cause: "close-from-bg", ChanCap: 2}, b2, 20)
+	}
+	add(c07Params{Backlog: 1, Segs: "one", Mode: "sending", Emit: 7, Stall: true, Cause: "close-from-bg", ChanCap: 2}, b2, 20)
+	for _, cs := range causes {
+		add(c07Params{Backlog: 2, Segs: "one", Mode: "idle", Cause: cs, BGBusy: true}, b2, 20)
+		add(c07Params{Backlog: 1, Segs: "one", Mode: "sending", Emit: 7, Stall: true, Cause: cs, BGBusy: true, ChanCap: 2}, b2, 20)
 	}
 	// a dead peer: the server stops reading for good. Close, EOF (a half-closed peer) and a read error close the
 	// client's socket, which ends the blocked write; a cancelled context cannot (see 9.4), so it is left out here
